@@ -594,6 +594,120 @@ def renak_session(seed):
     return s.ops
 
 
+def stale_group_session(seed):
+    """C04 / C03: an unreliable group that lost its tail stays half assembled; exactly 1024 / 1025 / 16384 packets later (and at other distances) the middle of
+    another group - whose initial fragment was lost - arrives on the same channel: the two must never be taken for one group"""
+    rng = random.Random(seed)
+    s = Session(rng)
+    s.op("reset")
+    s.op("conn 1")
+    s.op("conn 2")
+    a_out, b_out = seq_choice(rng), seq_choice(rng)
+    s.op("seqinit 1 %d %d" % (b_out, a_out))
+    s.op("seqinit 2 %d %d" % (a_out, b_out))
+    s.note("peers 1 2")
+    ch = rng.choice([1, 3])
+    s.op("send 1 %d 9 0 1 8 %d" % (ch, s.next_pseed()))
+    drain(s, 1, 2, rounds=1)
+    # group A: the initial fragment arrives, the rest is lost
+    s.op("send 1 %d 192 0 0 16 %d" % (ch, s.next_pseed()))
+    s.op("flush 1")
+    s.op("dla 2 1")
+    for fl in (64, 320):
+        s.op("send 1 %d %d 0 0 16 %d" % (ch, fl, s.next_pseed()))
+        s.op("flush 1")
+        s.op("drop 1")
+    gap = rng.choice([1024, 1024, 1025, 1023, 512, 2048])
+    # ordinary traffic in between: one packet each (A's initial fragment travelled 3 packets ago; B's second fragment must ride `gap` packets after it)
+    for k in range(gap - 4):
+        s.op("send 1 %d 0 0 0 %d %d" % (ch, rng.choice([0, 8]), s.next_pseed()))
+        s.op("flush 1")
+        if k % 40 == 39:
+            s.op("dla 2 1")
+            s.op("tick 250000000")
+            s.op("flush 2")
+            s.op("dla 1 2")
+    s.op("dla 2 1")
+    # group B: the initial fragment is lost, the later ones arrive
+    s.op("send 1 %d 192 0 0 24 %d" % (ch, s.next_pseed()))
+    s.op("flush 1")
+    s.op("drop 1")
+    for fl in (64, 320):
+        s.op("send 1 %d %d 0 0 24 %d" % (ch, fl, s.next_pseed()))
+        s.op("flush 1")
+        s.op("dla 2 1")
+    s.op("send 1 %d 0 0 0 8 %d" % (ch, s.next_pseed()))
+    s.note("drain")
+    drain(s, 1, 2, rounds=3)
+    s.note("drained")
+    s.op("nodes")
+    return s.ops
+
+
+def ack256_session(seed):
+    """C02: one header that acknowledges a whole acknowledgement history at once - up to exactly 256 packets awaiting a verdict (the proviso of C02 allows 256),
+    all delivered in order on a link without faults, nothing coming back until the peer's single answer: every one of them must be reported ACK, in order"""
+    rng = random.Random(seed)
+    s = Session(rng)
+    s.op("reset")
+    s.op("conn 1")
+    s.op("conn 2")
+    a_out, b_out = seq_choice(rng), seq_choice(rng)
+    s.op("seqinit 1 %d %d" % (b_out, a_out))
+    s.op("seqinit 2 %d %d" % (a_out, b_out))
+    s.note("peers 1 2")
+    s.note("cleanlink")
+    s.op("send 1 1 9 0 1 8 %d" % s.next_pseed())
+    drain(s, 1, 2, rounds=1)
+    for _ in range(rng.randint(1, 2)):
+        n = rng.choice([64, 200, 254, 255, 256, 256, 256])
+        for k in range(n):
+            s.op("send 1 1 %d 0 0 %d %d" % (rng.choice([0, 8]), rng.choice([0, 8]), s.next_pseed()))
+            s.op("flush 1")
+            if k % 16 == 15:
+                s.op("dla 2 1")
+        s.op("dla 2 1")
+        s.op("tick 250000000")
+        s.op("flush 2")
+        s.op("dla 1 2")
+        drain(s, 1, 2, rounds=2)
+    s.note("drained")
+    s.op("nodes")
+    return s.ops
+
+
+def fill_ack_session(seed):
+    """C16 / C02: packets filled to the last bit (or leaving 1-2 bits) by a reliable bunch, each followed by one clean round trip and nothing else: as soon
+    as the peer's acknowledgement is in, the sender must hold no bunch buffer - not only after later traffic has come and gone"""
+    rng = random.Random(seed)
+    s = Session(rng)
+    s.op("reset")
+    if rng.random() < 0.4:
+        s.op("cfg magic %d %d" % rng.choice([(3, 5), (8, 0xA5), (32, 0xDEADBEEF)]))
+    s.op("conn 1")
+    s.op("conn 2")
+    a_out, b_out = seq_choice(rng), seq_choice(rng)
+    s.op("seqinit 1 %d %d" % (b_out, a_out))
+    s.op("seqinit 2 %d %d" % (a_out, b_out))
+    s.note("peers 1 2")
+    ch = rng.choice([1, 3, 200])
+    s.op("send 1 %d 9 0 1 8 %d" % (ch, s.next_pseed()))
+    drain(s, 1, 2, rounds=2)
+    for _ in range(rng.randint(2, 6)):
+        s.op("send 1 %d 8 0 3 %d %d" % (ch, rng.choice([100, 800, 1500, 3000, 5000]), s.next_pseed()))
+        s.op("sendfill 1 %d 8 3 %d %d" % (ch, rng.choice([0, 0, 0, 1, 2]), s.next_pseed()))
+        s.op("flush 1")
+        s.op("dla 2 1")
+        s.op("tick 250000000")
+        s.op("flush 2")
+        s.op("dla 1 2")
+        s.note("drained")
+        s.op("nodes")
+    drain(s, 1, 2, rounds=3)
+    s.op("nodes")
+    return s.ops
+
+
 def burst_session(seed):
     """C10 / C01 / C16: a whole channel life in one burst - open, data, close: 254 ... 256 reliable bunches of one channel unacknowledged at once (the
     proviso of C01 allows 256) - with the sender's update running while everything is still in flight, one of the datagrams lost, then a fault-free drain:
@@ -1119,8 +1233,10 @@ def wrapper_pair(seed):
     pre.append("send 1 1 9 0 1 8 %d" % s.next_pseed())
     pre += ["flush 1", "wdla 2 1", "tick 250000000", "flush 2", "wdla 1 2"]
     nb = rng.randint(2, 7)
+    if rng.random() < 0.2:
+        nb = rng.choice([31, 32, 33, 34, 40, 70])       # long reorder windows: one datagram overtaken by dozens of later ones
     for i in range(nb):
-        for _ in range(rng.randint(0, 3)):
+        for _ in range(rng.randint(0, 3) if nb < 20 else rng.randint(0, 1)):
             fl = rng.choice([8, 8, 0])
             pre.append("send 1 1 %d 0 1 %d %d" % (fl, payload_bits(rng, small=True), s.next_pseed()))
         if rng.random() < 0.3:
@@ -1137,6 +1253,10 @@ def wrapper_pair(seed):
     sorted_order = sorted(chosen)
     perm = chosen[:]
     rng.shuffle(perm)
+    if nb >= 20 and rng.random() < 0.6:
+        # the first datagram of the batch arrives last, everything else in order
+        perm = sorted(set(chosen))[1:] + sorted(set(chosen))[:1]
+        sorted_order = sorted(set(chosen))
     post = ["wflush 2"]
     tail = ["tick 250000000", "flush 2", "dla 1 2", "tick 250000000", "flush 1", "wdla 2 1", "tick 250000000", "flush 2", "dla 1 2", "nodes"]
 
